@@ -13,6 +13,8 @@ Inductive ckind :=
 | CKGuardianUnfixed     (* FailFast on the unchanged tree (kept for replaying the refutation) *)
 | CKQuiet               (* WoundsWriter to a writable path / WoundsPrinter *)
 | CKFailOnBad           (* WoundsWriter whose file cannot be created *)
+| CKFailAtBad (n : nat) (* WoundsWriter whose n-th wound cannot be written (file size limit); used on trees
+                           whose first messages are all non-healthy, so that messages = wounds *)
 | CKReturnsAfter (n : nat) (r : res)
 | CKHealer (fail_at : option nat).
 
@@ -22,6 +24,8 @@ Definition consumer_of (k : ckind) : consumer :=
   | CKGuardianUnfixed => guardian_unfixed
   | CKQuiet => quiet
   | CKFailOnBad => fails_on_bad
+  | CKFailAtBad n => mkcons None (fun k _ m => match m with Bad => if n <=? S k then Some RErr else None | Healthy => None end)
+                            (fun _ => RNil) (fun _ => Some RNil)
   | CKReturnsAfter n r => returns_after n r
   | CKHealer f => healer f
   end.
@@ -149,6 +153,7 @@ Definition onat_eqb (a b : option nat) : bool :=
 Definition ckind_eqb (a b : ckind) : bool :=
   match a, b with
   | CKGuardian, CKGuardian | CKGuardianUnfixed, CKGuardianUnfixed | CKQuiet, CKQuiet | CKFailOnBad, CKFailOnBad => true
+  | CKFailAtBad n1, CKFailAtBad n2 => Nat.eqb n1 n2
   | CKReturnsAfter n1 r1, CKReturnsAfter n2 r2 => Nat.eqb n1 n2 && res_eqb r1 r2
   | CKHealer f1, CKHealer f2 => onat_eqb f1 f2
   | _, _ => false
